@@ -45,7 +45,7 @@ func verifC12src(maxM, maxN, stmtLen int, rerun, concrete bool) {
 	// Run 1: fails at statement k.
 	f1 := &vFile{name: "1_a.sql", version: "1", desc: "a", stmts: old}
 	d1 := &vDriver{ops: &ops, failAt: k}
-	ex1, err := NewExecutor(d1, &vDir{files: []File{f1}}, rrw)
+	ex1, err := NewExecutor(d1, &vDir{files: []File{f1}, realHash: true}, rrw)
 	verifAssert(err == nil, "executor 1")
 	err = ex1.Execute(ctx, f1)
 	var see *StmtExecError
@@ -57,7 +57,7 @@ func verifC12src(maxM, maxN, stmtLen int, rerun, concrete bool) {
 	f2 := &vFile{name: "1_a.sql", version: "1", desc: "a", stmts: cur}
 	ops = 0
 	d2 := &vDriver{ops: &ops, failAt: -1}
-	ex2, err := NewExecutor(d2, &vDir{files: []File{f2}}, rrw)
+	ex2, err := NewExecutor(d2, &vDir{files: []File{f2}, realHash: true}, rrw)
 	verifAssert(err == nil, "executor 2")
 	err = ex2.Execute(ctx, f2)
 	// Oracle: did the applied prefix change?
@@ -83,14 +83,14 @@ func verifC12src(maxM, maxN, stmtLen int, rerun, concrete bool) {
 		after := rrw.revs[0]
 		verifAssert(after.Applied == before.Applied && after.Total == before.Total &&
 			len(after.PartialHashes) == len(before.PartialHashes) && after.Error == before.Error &&
-			after.ErrorStmt == before.ErrorStmt, "refusal leaves the recorded revision untouched")
+			after.ErrorStmt == before.ErrorStmt && after.Hash == before.Hash, "refusal leaves the recorded revision untouched")
 	}
 	if rerun {
 		// Further attempts, as `migrate apply` would make them: the file is
 		// executed again only while the executor itself considers it pending.
 		ops = 0
 		d3 := &vDriver{ops: &ops, failAt: -1, clean: true}
-		ex3, _ := NewExecutor(d3, &vDir{files: []File{f2}}, rrw)
+		ex3, _ := NewExecutor(d3, &vDir{files: []File{f2}, realHash: true}, rrw)
 		// Executor.Pending re-submits the file while its revision is partial
 		// (Applied != Total); directory validation is C06's subject.
 		err3 := ErrNoPendingFiles
